@@ -144,7 +144,7 @@ inductive CAct where
   | cU3 (room : Bool)         -- U3 triggerWrite
   | cU4 (ok : Bool)           -- U4 lock(processing); success -> CB with detach
   | cU5                       -- U5 force(closing, user)
-  | cU6 (ok : Bool)           -- U6 lock(processing); success -> CB without detach
+  | cU6 (ok : Bool)           -- U6 lock(processing); success -> CB with detach (a no-op after the poller's; fix D18)
   | dCall                     -- Detach() called
   | dStore                    -- detaching := 1
   | dCas (ok : Bool)          -- its closeBy(user)
@@ -273,7 +273,7 @@ def stepCloser (s : S) : CAct → Option S
       if s.cU5 > 0 then some { s with closing := 1, userClosed := true, cU5 := s.cU5 - 1, cU6 := s.cU6 + 1 } else none
   | .cU6 ok =>
       if s.cU6 > 0 ∧ ok = (s.processing == 0) then
-        (if ok then some (enterCBn { s with processing := 1, cU6 := s.cU6 - 1 })
+        (if ok then some (enterCBd { s with processing := 1, cU6 := s.cU6 - 1 })
          else some { s with cU6 := s.cU6 - 1 })
       else none
   | .dCall => if s.dPc = 0 then some { s with dPc := 1 } else none
